@@ -541,9 +541,10 @@ def run(rec, tier, seed):
         cases.append({'kind': 'koyama_fj', 'N': N, 'l': l})
     for sg, l, lp in [(1.0, 0.5, 2.0), (1.0, 0.4, 2.0), (2.0, 1.0, 5.0), (1.0, 1.0, 1.2), (1.0, 1.0, 1.0), (1.0, 0.8, 1.0), (1.0, 1.5, 1.6)]:
         cases.append({'kind': 'invalid', 'params': {'sigma': sg, 'l': l, 'N': 10, 'lp': lp}})
-    # just below the smallest persistence length that keeps neighbours apart (relative 1e-6 and 1e-9: far above rounding of lp_min itself)
+    # just below the smallest persistence length that keeps neighbours apart (relative 1e-6: ten orders above the rounding of lp_min itself,
+    # so an implementation that forgives rounding noise in lp is not affected)
     for sg, l in [(1.0, 1.0), (1.0, 0.8), (1.3, 1.0), (0.8, 1.5)]:
-        for f in (1 - 1e-6, 1 - 1e-9, 1 - 1e-3):
+        for f in (1 - 1e-6, 1 - 1e-4, 1 - 1e-3):
             cases.append({'kind': 'invalid', 'params': {'sigma': sg, 'l': l, 'N': 10, 'lp': float(4.0 * l ** 3 / (4.0 * l ** 2 - sg ** 2) * f)}})
     core.pmap(_worker, cases, rec)
     rec.note('alphabets', {'N_closed_forms': Ns, 'geometry': geo, 'ksets': ksets, 'N_nfjc': nN, 'N_koyama': kN,
